@@ -181,14 +181,14 @@ theorem pySlice_eq' {α} (l : List α) (a b : Int) (ha : 0 ≤ a) (hal : a ≤ l
     rw [h2]
     rw [List.take_of_length_le (by simp; omega), List.take_of_length_le (by simp; omega)]
 
-/-- Well-formed concrete dtype: non-negative bit length; `bool` has length 1. -/
+/-- Well-formed concrete dtype: non-negative bit length. -/
 def RDT.wf : RDT → Prop
-  | .fixed k bl => 0 ≤ bl ∧ (k = .bool → bl = 1)
+  | .fixed _ bl => 0 ≤ bl
   | .var _ => True
 
 def DT.wf : DT → Prop
   | .known r => r.wf
-  | .stretchy k => k ≠ .bool
+  | .stretchy _ => True
 
 /-- What a concrete dtype means on exactly the bits it consumed. -/
 def rdtDecode : RDT → Bits → Except Err Val
@@ -196,28 +196,17 @@ def rdtDecode : RDT → Bits → Except Err Val
   | .var vk, b => specDecode (.var vk) b
 
 theorem readFixed_ok (bits : Bits) (pos : Int) (k : Kind) (bl : Int) (v : Val)
-    (h0 : 0 ≤ pos) (h1 : pos ≤ bits.length) (hbl : 0 ≤ bl) (hk : k = .bool → bl = 1)
+    (h0 : 0 ≤ pos) (h1 : pos ≤ bits.length) (hbl : 0 ≤ bl)
     (h : readFixed bits pos k bl = .ok v) :
     pos + bl ≤ bits.length ∧ decode k ((bits.drop pos.toNat).take bl.toNat) = .ok v := by
   unfold readFixed at h
   split at h
-  · rename_i hb
-    have hbl1 := hk hb
-    subst hb
-    rw [pySlice_eq' bits pos (pos + 1) h0 h1 (by omega)] at h
-    have hlen := decode_bool_ok _ _ h
-    simp only [List.length_take, List.length_drop] at hlen
+  · cases h
+  · rename_i hlt
     refine ⟨by omega, ?_⟩
-    rw [hbl1]
-    rw [show (pos + 1 - pos).toNat = (1 : Int).toNat by omega] at h
+    rw [pySlice_eq' bits pos (pos + bl) h0 h1 (by omega)] at h
+    rw [show (pos + bl - pos).toNat = bl.toNat by omega] at h
     exact h
-  · split at h
-    · cases h
-    · rename_i hlt
-      refine ⟨by omega, ?_⟩
-      rw [pySlice_eq' bits pos (pos + bl) h0 h1 (by omega)] at h
-      rw [show (pos + bl - pos).toNat = bl.toNat by omega] at h
-      exact h
 
 theorem readRDT_ok (bits : Bits) (pos : Int) (r : RDT) (v : Val) (np : Int)
     (h0 : 0 ≤ pos) (h1 : pos ≤ bits.length) (hw : r.wf) (h : readRDT bits pos r = .ok (v, np)) :
@@ -230,8 +219,8 @@ theorem readRDT_ok (bits : Bits) (pos : Int) (r : RDT) (v : Val) (np : Int)
     split at h
     · rename_i v' hv
       cases h
-      obtain ⟨hw1, hw2⟩ := hw
-      obtain ⟨hle, hd⟩ := readFixed_ok bits pos k bl v h0 h1 hw1 hw2 hv
+      obtain ⟨hle, hd⟩ := readFixed_ok bits pos k bl v h0 h1 hw hv
+      have hw' : 0 ≤ bl := hw
       refine ⟨bl.toNat, by omega, by omega, hd, ?_⟩
       intro kk bl' heq; cases heq; omega
     · cases h
@@ -240,20 +229,20 @@ theorem readRDT_ok (bits : Bits) (pos : Int) (r : RDT) (v : Val) (np : Int)
     obtain ⟨k, _, hk1, hk2, hk3⟩ := readVar_ok bits pos vk v np h0 h1 h
     exact ⟨k, hk1, hk2, hk3, by intro kk bl heq; cases heq⟩
 
-theorem mkDtype_ok (k : Kind) (n : Int) (r : RDT) (hn : 0 ≤ n) (h : mkDtype k n = .ok r) :
-    r = .fixed k (n * k.mult) ∧ r.wf := by
+theorem mkDtype_ok (k : Kind) (n : Int) (r : RDT) (h : mkDtype k n = .ok r) :
+    r = .fixed k (n * k.mult) ∧ 0 ≤ n ∧ r.wf := by
   unfold mkDtype at h
   split at h
-  · rename_i ha
-    cases h
-    refine ⟨rfl, ?_, ?_⟩
-    · cases k <;> simp [Kind.mult] <;> omega
-    · intro hb; subst hb
-      simp [allowed] at ha
-      simp [Kind.mult, ha]
   · cases h
+  · split at h
+    · cases h
+    · rename_i hn
+      cases h
+      refine ⟨rfl, by omega, ?_⟩
+      show 0 ≤ n * k.mult
+      cases k <;> simp [Kind.mult] <;> omega
 
-theorem resolve_wf (d : DT) (avail : Int) (r : RDT) (hd : d.wf) (ha : 0 ≤ avail) (h : resolve d avail = .ok r) :
+theorem resolve_wf (d : DT) (avail : Int) (r : RDT) (hd : d.wf) (h : resolve d avail = .ok r) :
     r.wf := by
   cases d with
   | known r' => simp only [resolve] at h; cases h; exact hd
@@ -261,23 +250,25 @@ theorem resolve_wf (d : DT) (avail : Int) (r : RDT) (hd : d.wf) (ha : 0 ≤ avai
     simp only [resolve] at h
     split at h
     · cases h
-    · have : 0 ≤ avail / k.mult := by
-        cases k <;> simp [Kind.mult] <;> omega
-      exact (mkDtype_ok k _ r this h).2
+    · exact (mkDtype_ok k _ r h).2.2
 
-theorem toDT_wf (t : Tok) (d : DT) (hneg : ∀ n, t = .count n → 0 ≤ n) (h : t.toDT = .ok d) : d.wf := by
+theorem toDT_wf (t : Tok) (d : DT) (h : t.toDT = .ok d) : d.wf := by
   cases t with
-  | count n => simp only [Tok.toDT] at h; cases h; exact ⟨hneg n rfl, by intro hh; cases hh⟩
+  | count n =>
+    simp only [Tok.toDT] at h
+    cases hm : mkDtype .bits n with
+    | error e => rw [hm] at h; cases h
+    | ok r => rw [hm] at h; cases h; exact (mkDtype_ok .bits n r hm).2.2
   | fixed k n =>
     simp only [Tok.toDT] at h
     cases hm : mkDtype k n with
     | error e => rw [hm] at h; cases h
-    | ok r => rw [hm] at h; cases h; exact (mkDtype_ok k n r (by omega) hm).2
+    | ok r => rw [hm] at h; cases h; exact (mkDtype_ok k n r hm).2.2
   | stretchy k =>
-    cases k <;> simp only [Tok.toDT] at h <;> (try (cases h; simp [DT.wf]; done))
+    cases k <;> simp only [Tok.toDT] at h <;> (try (cases h; trivial; done))
     cases hm : mkDtype .bool 1 with
     | error e => rw [hm] at h; cases h
-    | ok r => rw [hm] at h; cases h; exact (mkDtype_ok .bool 1 r (by omega) hm).2
+    | ok r => rw [hm] at h; cases h; exact (mkDtype_ok .bool 1 r hm).2.2
   | var v => simp only [Tok.toDT] at h; cases h; trivial
 
 /-- The main fact about a single read. -/
@@ -306,7 +297,7 @@ theorem readTok_ok (s : Stream) (t : Tok) (v : Val) (np : Int) (hi : Inv s) (h :
     | ok r =>
       rw [hm] at h
       simp only [Except.map, resolve] at h
-      obtain ⟨hr, hw⟩ := mkDtype_ok k n r (by omega) hm
+      obtain ⟨hr, _, hw⟩ := mkDtype_ok k n r hm
       split at h; · cases h
       rename_i v' np' hrd
       split at h; · cases h
@@ -324,7 +315,7 @@ theorem readTok_ok (s : Stream) (t : Tok) (v : Val) (np : Int) (hi : Inv s) (h :
       | ok r =>
         rw [hm] at h
         simp only [Except.map, resolve] at h
-        obtain ⟨hr, hw⟩ := mkDtype_ok .bool 1 r (by omega) hm
+        obtain ⟨hr, _, hw⟩ := mkDtype_ok .bool 1 r hm
         split at h; · cases h
         rename_i v' np' hrd
         split at h; · cases h
@@ -343,7 +334,7 @@ theorem readTok_ok (s : Stream) (t : Tok) (v : Val) (np : Int) (hi : Inv s) (h :
       have hmod' : (s.len - s.pos) % k.mult = 0 := by simpa using hmod
       have hq : 0 ≤ (s.len - s.pos) / k.mult := by
         unfold Stream.len; cases k <;> simp [Kind.mult] <;> omega
-      obtain ⟨hr, hw⟩ := mkDtype_ok k _ r hq hres
+      obtain ⟨hr, _, hw⟩ := mkDtype_ok k _ r hres
       split at h; · cases h
       rename_i v' np' hrd
       split at h; · cases h
@@ -380,10 +371,24 @@ theorem readTok_count_short (s : Stream) (n : Int) (hn : 0 ≤ n) (hs : n > s.le
   simp only [readTok]
   rw [if_neg (by omega), if_pos hs]
 
-theorem readTok_fixed_short (s : Stream) (k : Kind) (n : Nat) (hk : k ≠ .bool) (ha : allowed k n = true)
+theorem mkDtype_allowed (k : Kind) (n : Int) (ha : allowed k n = true) (hn : 0 ≤ n) :
+    mkDtype k n = .ok (.fixed k (n * k.mult)) := by
+  unfold mkDtype
+  rw [if_neg (by simp [ha]), if_neg (by omega)]
+
+theorem mkDtype_err (k : Kind) (n : Int) (e : Err) (h : mkDtype k n = .error e) :
+    e = .value ∧ (allowed k n = false ∨ n < 0) := by
+  unfold mkDtype at h
+  split at h
+  · rename_i ha; cases h; exact ⟨rfl, Or.inl (by simpa using ha)⟩
+  · split at h
+    · rename_i hn; cases h; exact ⟨rfl, Or.inr hn⟩
+    · cases h
+
+theorem readTok_fixed_short (s : Stream) (k : Kind) (n : Nat) (ha : allowed k n = true)
     (hs : (n : Int) * k.mult > s.len - s.pos) :
     readTok s (.fixed k n) = .error .read := by
-  simp only [readTok, Tok.toDT, mkDtype, ha, if_true, Except.map, resolve, readRDT, readFixed, if_neg hk]
+  simp only [readTok, Tok.toDT, mkDtype_allowed k n ha (by omega), Except.map, resolve, readRDT, readFixed]
   unfold Stream.len at hs
   rw [if_pos (by omega)]
 
@@ -403,12 +408,12 @@ theorem readItems_ok (bits : Bits) (after : Int) (ds : List DT) (pos : Int) (vs 
     split at h; · cases h
     rename_i vs' fp' hrest
     cases h
-    have hrw := resolve_wf d _ r (hw d (List.mem_cons_self ..)) (by omega) hres
+    have hrw := resolve_wf d _ r (hw d (List.mem_cons_self ..)) hres
     obtain ⟨k, hk1, hk2, _, _⟩ := readRDT_ok bits pos r v np h0 h1 hrw hrd
     have := ih np vs' (fun d hd => hw d (List.mem_cons_of_mem _ hd)) (by omega) (by omega) hrest
     omega
 
-theorem toDTs_wf (ts : List Tok) (ds : List DT) (hneg : negCountList ts = false) (h : toDTs ts = .ok ds) :
+theorem toDTs_wf (ts : List Tok) (ds : List DT) (h : toDTs ts = .ok ds) :
     ∀ d ∈ ds, d.wf := by
   induction ts generalizing ds with
   | nil => simp only [toDTs] at h; cases h; intro d hd; cases hd
@@ -419,23 +424,20 @@ theorem toDTs_wf (ts : List Tok) (ds : List DT) (hneg : negCountList ts = false)
     split at h; · cases h
     rename_i ds' hds
     cases h
-    simp only [negCountList, List.any_cons, Bool.or_eq_false_iff] at hneg
     intro d' hd'
     cases hd' with
-    | head => 
-      apply toDT_wf t _ _ hd
-      intro n hn; subst hn; simpa using hneg.1
-    | tail _ hm => exact ih ds' (by simpa [negCountList] using hneg.2) hds d' hm
+    | head => exact toDT_wf t _ hd
+    | tail _ hm => exact ih ds' hds d' hm
 
 theorem readList_ok (bits : Bits) (pos : Int) (ts : List Tok) (vs : List Val) (fp : Int)
-    (hneg : negCountList ts = false) (h0 : 0 ≤ pos) (h1 : pos ≤ bits.length)
+    (h0 : 0 ≤ pos) (h1 : pos ≤ bits.length)
     (h : readList bits pos ts = .ok (vs, fp)) : pos ≤ fp ∧ fp ≤ bits.length := by
   unfold readList at h
   split at h; · cases h
   rename_i ds hds
   split at h; · cases h
   rename_i after hafter
-  exact readItems_ok bits after ds pos vs fp (toDTs_wf ts ds hneg hds) h0 h1 h
+  exact readItems_ok bits after ds pos vs fp (toDTs_wf ts ds hds) h0 h1 h
 
 /-! ### invariant -/
 
@@ -509,11 +511,19 @@ theorem insertAt_inv (s : Stream) (b : Bits) (p : Option Int) (hi : Inv s) : Inv
       omega
     · intro _; exact hi
 
+theorem overwriteAt_inv (s : Stream) (b : Bits) (p : Option Int) (hi : Inv s) : Inv (overwriteAt s b p).1 := by
+  unfold overwriteAt
+  apply inv_ite; · intro _; exact hi
+  intro _
+  simp only
+  apply inv_ite; · intro _; exact hi
+  intro hq
+  unfold Inv Stream.len at *; simp only [List.length_append, List.length_take, List.length_drop]
+  omega
+
 theorem replaceWith_inv (s : Stream) (old new : Bits) (a b c : Option Int) (al : Bool) (hi : Inv s) :
     Inv (replaceWith s old new a b c al).1 := by
   unfold replaceWith
-  apply inv_ite; · intro _; exact hi
-  intro _
   apply inv_ite; · intro _; exact hi
   intro _
   cases hv : validateSlice s.bits.length a b with
@@ -523,12 +533,14 @@ theorem replaceWith_inv (s : Stream) (old new : Bits) (a b c : Option Int) (al :
     simp only
     apply inv_ite; · intro _; exact hi
     intro _
+    apply inv_ite; · intro _; exact hi
+    intro _
     exact afterLenChange_inv _ _ hi
 
 theorem imul_len (b : Bits) (n : Nat) : ((List.replicate n b).flatten).length = n * b.length := by
   simp [List.length_flatten, List.map_replicate, List.sum_replicate_nat]
 
-theorem inv_stepCore (s : Stream) (op : Op) (hi : Inv s) (hs : invSafe s op = true) : Inv (stepCore s op).1 := by
+theorem inv_stepCore (s : Stream) (op : Op) (hi : Inv s) : Inv (stepCore s op).1 := by
   have hi' := hi
   obtain ⟨h0, h1⟩ := hi
   cases op <;> simp only [stepCore]
@@ -548,9 +560,7 @@ theorem inv_stepCore (s : Stream) (op : Op) (hi : Inv s) (hs : invSafe s op = tr
     | error e => exact hi'
     | ok r =>
       obtain ⟨vs, np⟩ := r
-      have hneg : negCountList ts = false := by
-        simp [invSafe, readlist_negative_count, property_assignment_shrinks] at hs; simpa using hs
-      have := readList_ok s.bits s.pos ts vs np hneg h0 h1 h
+      have := readList_ok s.bits s.pos ts vs np h0 h1 h
       unfold Inv; simp only; omega
   case peeklist ts =>
     cases h : readList s.bits s.pos ts with
@@ -590,14 +600,8 @@ theorem inv_stepCore (s : Stream) (op : Op) (hi : Inv s) (hs : invSafe s op = tr
   case prependSelf => unfold Inv; simp
   case insert b p => exact insertAt_inv s b p hi'
   case insertSelf p => exact insertAt_inv s s.bits p hi'
-  case overwrite b p =>
-    apply inv_ite; · intro _; exact hi'
-    intro _
-    try simp only
-    apply inv_ite; · intro _; exact hi'
-    intro hq
-    unfold Inv Stream.len at *; simp only [List.length_append, List.length_take, List.length_drop]
-    omega
+  case overwrite b p => exact overwriteAt_inv s b p hi'
+  case overwriteSelf p => exact overwriteAt_inv s s.bits p hi'
   case setSlice a b v => exact afterLenChange_inv _ _ hi'
   case setIdxBits i v =>
     try simp only
@@ -623,9 +627,7 @@ theorem inv_stepCore (s : Stream) (op : Op) (hi : Inv s) (hs : invSafe s op = tr
   case setProp nb =>
     cases nb with
     | none => exact hi'
-    | some nb =>
-      simp [invSafe, readlist_negative_count, property_assignment_shrinks] at hs
-      unfold Inv; simp only; omega
+    | some nb => exact afterLenChange_inv _ _ hi'
   case setUint v =>
     try simp only
     apply inv_ite; · intro _; exact hi'
@@ -654,25 +656,24 @@ theorem inv_stepCore (s : Stream) (op : Op) (hi : Inv s) (hs : invSafe s op = tr
       omega
   all_goals (first | exact hi' | (apply inv_ite <;> intro _ <;> first | exact hi' | (unfold Inv; simp)))
 
-theorem inv_step (s : Stream) (op : Op) (hi : Inv s) (hs : invSafe s op = true) : Inv (step s op).1 := by
+theorem inv_step_all (s : Stream) (op : Op) (hi : Inv s) : Inv (step s op).1 := by
   unfold step
   apply inv_ite
   · intro _; exact hi
-  · intro _; exact inv_stepCore s op hi hs
+  · intro _; exact inv_stepCore s op hi
 
 theorem run_cons (s : Stream) (op : Op) (rest : List Op) :
     run s (op :: rest) = if Inv (step s op).1 then (step s op) :: run (step s op).1 rest else [step s op] := by
   simp only [run]
 
-theorem inv_run' (s : Stream) (ops : List Op) (hi : Inv s) (hs : safeRun s ops = true) :
+theorem inv_run' (s : Stream) (ops : List Op) (hi : Inv s) :
     (∀ o ∈ run s ops, Inv o.1) ∧ (run s ops).length = ops.length := by
   induction ops generalizing s with
   | nil => simp [run]
   | cons op rest ih =>
-    simp only [safeRun, Bool.and_eq_true] at hs
-    have h1 := inv_step s op hi hs.1
+    have h1 := inv_step_all s op hi
     rw [run_cons, if_pos h1]
-    obtain ⟨ih1, ih2⟩ := ih (step s op).1 h1 hs.2
+    obtain ⟨ih1, ih2⟩ := ih (step s op).1 h1
     constructor
     · intro o ho
       cases ho with
@@ -710,10 +711,8 @@ theorem readRDT_posZero (bits : Bits) (pos : Int) (r : RDT) (v : Val) (np : Int)
       rw [hf] at h; cases h
       unfold readFixed at hf
       split at hf
+      · cases hf
       · exact decode_posZero _ _ _ hf
-      · split at hf
-        · cases hf
-        · exact decode_posZero _ _ _ hf
   | var vk =>
     simp only [readRDT, readVar] at h
     cases vk <;> simp only at h <;> split at h <;> cases h <;> trivial
@@ -762,7 +761,11 @@ theorem readList_posZero (bits : Bits) (pos : Int) (ts : List Tok) (vs : List Va
 
 theorem toDT_known_of_not_open (t : Tok) (d : DT) (ho : t.isOpen = false) (h : t.toDT = .ok d) : ∃ r, d = .known r := by
   cases t with
-  | count n => simp only [Tok.toDT] at h; cases h; exact ⟨_, rfl⟩
+  | count n =>
+    simp only [Tok.toDT] at h
+    cases hm : mkDtype .bits n with
+    | error e => rw [hm] at h; cases h
+    | ok r => rw [hm] at h; cases h; exact ⟨_, rfl⟩
   | fixed k n =>
     simp only [Tok.toDT] at h
     cases hm : mkDtype k n with
@@ -792,12 +795,16 @@ theorem readTok_eq_known (s : Stream) (t : Tok) (r : RDT) (hi : Inv s) (hd : t.t
       rw [if_neg (by unfold Stream.len; omega)]
   cases t with
   | count n =>
-    simp only [Tok.toDT] at hd; cases hd
-    obtain ⟨hn, _⟩ := hw
-    simp only [readTok, readRDT, readFixed]
+    simp only [Tok.toDT] at hd
+    cases hm : mkDtype .bits n with
+    | error e => rw [hm] at hd; cases hd
+    | ok r' =>
+    rw [hm] at hd; cases hd
+    obtain ⟨hr, hn, _⟩ := mkDtype_ok .bits n r hm
+    subst hr
+    simp only [readTok, readRDT, readFixed, Kind.mult, Int.mul_one]
     unfold Stream.len
-    have hb : ¬ (Kind.bits = Kind.bool) := by decide
-    rw [if_neg (show ¬ n < 0 by omega), if_neg hb]
+    rw [if_neg (show ¬ n < 0 by omega)]
     by_cases hs : n > (s.bits.length : Int) - s.pos
     · rw [if_pos hs, if_pos (by omega)]
     · rw [if_neg hs, if_neg (by omega)]; simp only [decode]
@@ -807,7 +814,17 @@ theorem readTok_eq_known (s : Stream) (t : Tok) (r : RDT) (hi : Inv s) (hd : t.t
 
 theorem readTok_toDT_err (s : Stream) (t : Tok) (e : Err) (hd : t.toDT = .error e) : readTok s t = .error e := by
   cases t with
-  | count n => simp [Tok.toDT] at hd
+  | count n =>
+    simp only [Tok.toDT] at hd
+    cases hm : mkDtype .bits n with
+    | ok r => rw [hm] at hd; cases hd
+    | error e' =>
+      rw [hm] at hd; cases hd
+      obtain ⟨he, hc⟩ := mkDtype_err _ _ _ hm
+      subst he
+      rcases hc with hc | hc
+      · simp [allowed] at hc
+      · simp only [readTok]; rw [if_pos hc]
   | fixed k n => simp only [readTok, hd]
   | stretchy k => simp only [readTok, hd]
   | var v => simp [Tok.toDT] at hd
@@ -823,15 +840,12 @@ theorem scan_known (ds : List DT) (h : ∀ d ∈ ds, ∃ r, d = .known r) : scan
     | var v => simp only [scanStretchy, Bool.false_eq_true, if_false]; exact ih (fun d hd => h d (List.mem_cons_of_mem _ hd))
 
 theorem readSeq_iff (ts : List Tok) (s : Stream) (hi : Inv s)
-    (ho : ∀ t ∈ ts, t.isOpen = false) (hneg : negCountList ts = false) (res : List Val × Int) :
+    (ho : ∀ t ∈ ts, t.isOpen = false) (res : List Val × Int) :
     (∃ ds, toDTs ts = .ok ds ∧ readItems s.bits 0 ds s.pos = .ok res) ↔ readSeq s ts = .ok res := by
   induction ts generalizing s res with
   | nil => simp [toDTs, readItems, readSeq]
   | cons t rest ih =>
     have ho' : ∀ t ∈ rest, t.isOpen = false := fun t ht => ho t (List.mem_cons_of_mem _ ht)
-    simp only [negCountList, List.any_cons, Bool.or_eq_false_iff] at hneg
-    have hneg' : negCountList rest = false := by simpa [negCountList] using hneg.2
-    have hnn : ∀ n, t = .count n → 0 ≤ n := by intro n hn; subst hn; simpa using hneg.1
     simp only [toDTs, readSeq]
     cases hd : t.toDT with
     | error e =>
@@ -840,7 +854,7 @@ theorem readSeq_iff (ts : List Tok) (s : Stream) (hi : Inv s)
     | ok d =>
       obtain ⟨r, hr⟩ := toDT_known_of_not_open t d (ho t (List.mem_cons_self ..)) hd
       subst hr
-      have hw : r.wf := toDT_wf t _ hnn hd
+      have hw : r.wf := toDT_wf t _ hd
       rw [readTok_eq_known s t r hi hd hw]
       cases hrd : readRDT s.bits s.pos r with
       | error e =>
@@ -857,7 +871,7 @@ theorem readSeq_iff (ts : List Tok) (s : Stream) (hi : Inv s)
         obtain ⟨v, np⟩ := x
         obtain ⟨k, hk1, hk2, _, _⟩ := readRDT_ok s.bits s.pos r v np hi.1 hi.2 hw hrd
         have hi2 : Inv { s with pos := np } := by have := hi.1; unfold Inv; simp only; omega
-        have IH := ih { s with pos := np } hi2 ho' hneg'
+        have IH := ih { s with pos := np } hi2 ho'
         simp only
         constructor
         · rintro ⟨ds, h1, h2⟩
@@ -986,34 +1000,17 @@ theorem new_pos_zero (s s' : Stream) (op : Op) (p : Int) (h : step s op = (s', .
   · cases h
   · cases op
     case setProp => rename_i nb _; cases nb <;> simp only [stepCore] at h <;> cases h
-    all_goals (try simp only [stepCore, findCommon, insertAt, replaceWith, setBitPos, runQuery] at h)
+    all_goals (try simp only [stepCore, findCommon, insertAt, overwriteAt, replaceWith, setBitPos, runQuery] at h)
     all_goals (try (repeat' split at h))
     all_goals (try (cases h <;> rfl))
 
-theorem ret_frame (s s' : Stream) (op : Op) (r : Ret) (h : step s op = (s', .ret r))
-    (hr : const_and_or_self s op = false) : s' = s := by
+theorem ret_frame (s s' : Stream) (op : Op) (r : Ret) (h : step s op = (s', .ret r)) : s' = s := by
   unfold step at h
   split at h
   · cases h
   · cases op
-    case andSelf =>
-      simp only [stepCore] at h
-      simp only [const_and_or_self, Bool.and_eq_false_iff, Bool.not_eq_false', decide_eq_false_iff_not, ne_eq, not_not] at hr
-      rcases hr with hr | hr
-      · rw [hr] at h; simp only [if_true] at h; cases h; rfl
-      · split at h
-        · cases h; rfl
-        · cases h; cases s; simp only at hr; subst hr; rfl
-    case orSelf =>
-      simp only [stepCore] at h
-      simp only [const_and_or_self, Bool.and_eq_false_iff, Bool.not_eq_false', decide_eq_false_iff_not, ne_eq, not_not] at hr
-      rcases hr with hr | hr
-      · rw [hr] at h; simp only [if_true] at h; cases h; rfl
-      · split at h
-        · cases h; rfl
-        · cases h; cases s; simp only at hr; subst hr; rfl
     case setProp => rename_i nb _; cases nb <;> simp only [stepCore] at h <;> cases h
-    all_goals (try simp only [stepCore, findCommon, insertAt, replaceWith, setBitPos, runQuery] at h)
+    all_goals (try simp only [stepCore, findCommon, insertAt, overwriteAt, replaceWith, setBitPos, runQuery] at h)
     all_goals (try (repeat' split at h))
     all_goals (try (cases h <;> rfl))
 
@@ -1055,7 +1052,7 @@ theorem values_pos_zero_core (s s' : Stream) (op : Op) :
   case setProp nb =>
     cases nb <;> exact ⟨fun v h => (by simp only [stepCore] at h; cases h), fun vs h => (by simp only [stepCore] at h; cases h)⟩
   all_goals (constructor <;> intro v h)
-  all_goals (try simp only [stepCore, findCommon, insertAt, replaceWith, setBitPos, runQuery] at h)
+  all_goals (try simp only [stepCore, findCommon, insertAt, overwriteAt, replaceWith, setBitPos, runQuery] at h)
   all_goals (try (repeat' split at h))
   all_goals (try (cases h <;> trivial))
 
@@ -1068,7 +1065,7 @@ theorem values_pos_zero (s s' : Stream) (op : Op) :
 
 theorem nonmutator_bits_core (s : Stream) (op : Op) (h : op.isMutator = false) : (stepCore s op).1.bits = s.bits := by
   cases op <;> simp only [Op.isMutator] at h <;> (try (cases h; done)) <;>
-    simp only [stepCore, findCommon, insertAt, replaceWith, setBitPos, runQuery]
+    simp only [stepCore, findCommon, insertAt, overwriteAt, replaceWith, setBitPos, runQuery]
   all_goals (try (repeat' split))
   all_goals (try rfl)
 
@@ -1092,12 +1089,12 @@ theorem lenRule_replaceWith (s : Stream) (old new : Bits) (a b c : Option Int) (
     lenRule s (replaceWith s old new a b c al) := by
   unfold replaceWith
   apply lenRule_ite; · exact lenRule_self ..
-  apply lenRule_ite; · exact lenRule_self ..
   cases hv : validateSlice s.bits.length a b with
   | error e => exact lenRule_self ..
   | ok xy =>
     obtain ⟨x, y⟩ := xy
     simp only
+    apply lenRule_ite; · exact lenRule_self ..
     apply lenRule_ite; · exact lenRule_self ..
     exact lenRule_after ..
 
@@ -1164,12 +1161,52 @@ theorem readlist_step_iff (s : Stream) (ts : List Tok) (vs : List Val) (p : Int)
     · rintro ⟨h1, h2⟩; exact ⟨h2, h1⟩
 
 theorem readlist_eq_reads' (s : Stream) (ts : List Tok) (hi : Inv s)
-    (ho : ∀ t ∈ ts, t.isOpen = false) (hneg : negCountList ts = false) (vs : List Val) (p : Int) :
+    (ho : ∀ t ∈ ts, t.isOpen = false) (vs : List Val) (p : Int) :
     step s (.readlist ts) = ({ s with pos := p }, .vals vs) ↔ readSeq s ts = .ok (vs, p) := by
-  rw [step_eq_core s _ (by intro h; cases h), readlist_step_iff, ← readSeq_iff ts s hi ho hneg (vs, p),
+  rw [step_eq_core s _ (by intro h; cases h), readlist_step_iff, ← readSeq_iff ts s hi ho (vs, p),
     readList_noopen _ _ _ ho]
   cases hd : toDTs ts with
   | error e => simp
   | ok ds => simp
+
+theorem toDTs_neg (ts : List Tok) (n : Int) (hn : n < 0) (hm : Tok.count n ∈ ts) : toDTs ts = .error .value := by
+  induction ts with
+  | nil => cases hm
+  | cons t rest ih =>
+    simp only [toDTs]
+    cases hd : t.toDT with
+    | error e =>
+      simp only
+      cases t with
+      | count m =>
+        simp only [Tok.toDT] at hd
+        cases hmk : mkDtype .bits m with
+        | ok r => rw [hmk] at hd; cases hd
+        | error e' => rw [hmk] at hd; cases hd; rw [(mkDtype_err _ _ _ hmk).1]
+      | fixed k m =>
+        simp only [Tok.toDT] at hd
+        cases hmk : mkDtype k m with
+        | ok r => rw [hmk] at hd; cases hd
+        | error e' => rw [hmk] at hd; cases hd; rw [(mkDtype_err _ _ _ hmk).1]
+      | stretchy k =>
+        cases k <;> simp only [Tok.toDT] at hd <;> (try (cases hd; done))
+        all_goals
+          cases hmk : mkDtype .bool 1 with
+          | ok r => rw [hmk] at hd; cases hd
+          | error e' => rw [hmk] at hd; cases hd; rw [(mkDtype_err _ _ _ hmk).1]
+      | var v => simp only [Tok.toDT] at hd; cases hd
+    | ok d =>
+      simp only
+      cases hm with
+      | head =>
+        simp only [Tok.toDT] at hd
+        have : mkDtype .bits n = .error .value := by unfold mkDtype; simp [allowed, hn]
+        rw [this] at hd; cases hd
+      | tail _ hm' => rw [ih hm']
+
+theorem readlist_neg (s : Stream) (ts : List Tok) (n : Int) (hn : n < 0) (hm : Tok.count n ∈ ts) :
+    step s (.readlist ts) = (s, .err .value) := by
+  rw [step_eq_core s _ (by intro h; cases h)]
+  simp only [stepCore, readList, toDTs_neg ts n hn hm]
 
 end BM.C06
